@@ -24,11 +24,11 @@
    finds the block-independence violation).                                                   *)
 EXTENDS Integers, Sequences, FiniteSets, CArith, Lattice3, FrameHist, Scenarios, TLC, Json
 
-CONSTANTS Kinds, Seeds, Blocks, Firsts, ClearVol, Emit
+CONSTANTS Kinds, Seeds, Blocks, Firsts, AltExtFirsts, ClearVol, Emit
 
 VARIABLES sc,      \* the scenario (never changes)
           dv,      \* derived constants of the scenario: topology, per-frame histograms, volumes, norms
-          opt,     \* [block, first]  run options
+          opt,     \* [block, first, ext]  run options --block-length, --first-frame, --ext
           pc, fi, nproc, nfr, nblk,
           sumS, avgN, avgD, sumSS, corN, corD, sumV, nV, avgVN, avgVD,
           files, lastw, bstart
@@ -67,21 +67,25 @@ Derive(s) ==
       grp |-> [g \in GroupNamesOf(s) |-> GroupInfo(s, g)],
       fh |-> [f \in 1..Len(s.frames) |-> fd[f].h],
       vol |-> [f \in 1..Len(s.frames) |-> s.frames[f].box[1] * s.frames[f].box[2] * s.frames[f].box[3]],
-      n1 |-> [x \in 1..Len(s.inter) |-> IF s.inter[x].kind = "nb" THEN Cardinality(TypeSet(top, s.inter[x].t[1])) ELSE 1],
-      n2 |-> [x \in 1..Len(s.inter) |-> IF s.inter[x].kind = "nb" THEN Cardinality(TypeSet(top, s.inter[x].t[2])) ELSE 1],
+      n1 |-> [x \in 1..Len(s.inter) |-> IF s.inter[x].kind = "nb" THEN Cardinality(TypeSet(top, s.inter[x], 1)) ELSE 1],
+      n2 |-> [x \in 1..Len(s.inter) |-> IF s.inter[x].kind = "nb" THEN Cardinality(TypeSet(top, s.inter[x], 2)) ELSE 1],
       nn |-> [x \in 1..Len(s.inter) |-> IF s.inter[x].kind = "nb" /\ s.inter[x].t[1] = s.inter[x].t[2] THEN 2 ELSE 1],
       ok |-> \A f \in 1..Len(s.frames) : fd[f].ok,
       tie |-> \E f \in 1..Len(s.frames) : fd[f].tie,
       win |-> \A f \in 1..Len(s.frames) : fd[f].win,
-      skew |-> \A f \in 1..Len(s.frames) : fd[f].skew]
+      skew |-> \A f \in 1..Len(s.frames) : fd[f].skew,
+      dih |-> \A f \in 1..Len(s.frames) : fd[f].dih,
+      \* a distance exactly on a bin edge of a decimal layout (must not happen: rounding could go either way)
+      dectie |-> \E f \in 1..Len(s.frames) : fd[f].dectie]
 
 \* ---- exact values --------------------------------------------------------------------------------
 Term(n, d, p) == [n |-> n, d |-> d, p |-> p]
 ZeroVal == <<>>
 \* x-coordinate (bin centre) in q
 CentreQ(it, k) == it.mq + (k - 1) * it.sq
-\* 512 (x2^3 - x1^3) with x in u:  E2^3 differences (E2 = 8 x)
-Shell(it, k) == LET a == E2(it, k - 1) b == E2(it, k) IN b * b * b - a * a * a
+\* 8 den^3 (x2^3 - x1^3) with x in u (E2 = 2 den x), as two factors (b - a)(b^2 + ab + a^2) below 2^31
+ShellF(it, k) == LET a == E2(it, k - 1) b == E2(it, k) IN <<b - a, b * b + a * b + a * a>>
+Den3(it) == <<8, it.den, it.den, it.den>>
 NegEdge(it, k) == E2(it, k - 1) < 0
 \* volume average as a reduced fraction
 VBar(sv, nv) == LET g == Gcd(sv, nv) IN <<sv \div g, nv \div g>>
@@ -92,19 +96,21 @@ DistRows(x, S, n, sv, nv) ==
   IN [k \in 1..it.n |->
         IF it.kind = "nb"
         THEN IF NegEdge(it, k) \/ S[k] = 0 THEN ZeroVal
-             ELSE <<Term(<<VBar(sv, nv)[1], dv.nn[x], S[k], 3, 512>>,
-                         <<VBar(sv, nv)[2], dv.n1[x], dv.n2[x], n, 4, Shell(it, k)>>, -1)>>
+             ELSE <<Term(<<VBar(sv, nv)[1], dv.nn[x], S[k], 3>> \o Den3(it),
+                         <<VBar(sv, nv)[2], dv.n1[x], dv.n2[x], n, 4>> \o ShellF(it, k), -1)>>
         ELSE IF tot = 0 \/ S[k] = 0 THEN ZeroVal
-             ELSE <<Term(<<32, S[k]>>, <<tot, it.sq>>, 0)>>]
+             ELSE <<Term(<<8, it.den, S[k]>>, <<tot, it.sq>>, 0)>>]        \* step = sq / (8 den)
+\* x column: centre in q, and the number of q per nm (or per rad)
 Xs(x) == [k \in 1..sc.inter[x].n |-> CentreQ(sc.inter[x], k)]
+Xd(x) == [k \in 1..sc.inter[x].n |-> 8 * sc.inter[x].den]
 
 DeltaSRows(x, S, n, sv, nv) ==
   LET it == sc.inter[x]
   IN [k \in 1..it.n |->
         (IF S[k] = 0 THEN <<>> ELSE <<Term(<<S[k]>>, <<n>>, 0)>>) \o
         (IF NegEdge(it, k) \/ it.tgt[k] = 0 THEN <<>>
-         ELSE <<Term(<<-1, it.tgt[k], 4, Shell(it, k), VBar(sv, nv)[2], dv.n1[x], dv.n2[x]>>,
-                     <<8, 3, 512, VBar(sv, nv)[1], dv.nn[x]>>, 1)>>)]
+         ELSE <<Term(<<-1, it.tgt[k], 4, VBar(sv, nv)[2], dv.n1[x], dv.n2[x]>> \o ShellF(it, k),
+                     <<8, 3, VBar(sv, nv)[1], dv.nn[x]>> \o Den3(it), 1)>>)]
 
 \* numerators of gmc (denominator n^2): upper blocks from the accumulated products, lower mirrored
 GmcNum(g, S, SS, n) ==
@@ -112,17 +118,21 @@ GmcNum(g, S, SS, n) ==
       G(I, J) == v[I] * v[J] - n * SS[I][J]
   IN [I \in 1..Dim(g) |-> [J \in 1..Dim(g) |-> IF BlockOf(g, I) <= BlockOf(g, J) THEN G(I, J) ELSE G(J, I)]]
 
-Suffix(b) == IF b = 0 THEN ".dist.new" ELSE "_" \o ToString(b) \o ".dist.new"
+\* --ext replaces the default extension "dist.new" of the distribution (and block) files
+Suffix(b) == IF b = 0 THEN "." \o opt.ext ELSE "_" \o ToString(b) \o "." \o opt.ext
 ImcStem(g, b) == IF b = 0 THEN g ELSE g \o Suffix(b)
 
 DistFile(x, b, S, n, sv, nv) ==
   [name |-> sc.inter[x].name \o Suffix(b), kind |-> "dist", ik |-> sc.inter[x].kind, blk |-> b,
-   x |-> Xs(x), y |-> DistRows(x, S, n, sv, nv)]
+   x |-> Xs(x), xd |-> Xd(x), y |-> DistRows(x, S, n, sv, nv)]
 ImcFiles(g, b, S, SS, n, sv, nv) ==
   LET m == Members(g) IN
   <<[name |-> ImcStem(g, b) \o ".imc", kind |-> "imc", ik |-> "nb", blk |-> b,
-     x |-> Concat(g, [x \in 1..NI |-> Xs(x)]),
-     y |-> Concat(g, [x \in 1..NI |-> IF sc.inter[x].group = g THEN DeltaSRows(x, S[x], n, sv, nv) ELSE <<>>])],
+     x |-> Concat(g, [x \in 1..NI |-> Xs(x)]), xd |-> Concat(g, [x \in 1..NI |-> Xd(x)]),
+     \* dS of a bonded member is not defined by the statement: those rows are not compared (cmp = FALSE)
+     cmp |-> Concat(g, [x \in 1..NI |-> [k \in 1..sc.inter[x].n |-> sc.inter[x].kind = "nb"]]),
+     y |-> Concat(g, [x \in 1..NI |-> IF sc.inter[x].group = g /\ sc.inter[x].kind = "nb"
+                                       THEN DeltaSRows(x, S[x], n, sv, nv) ELSE [k \in 1..sc.inter[x].n |-> <<>>]])],
     [name |-> ImcStem(g, b) \o ".gmc", kind |-> "gmc", ik |-> "nb", blk |-> b, num |-> GmcNum(g, S, SS[g], n), den |-> <<n, n>>],
     [name |-> ImcStem(g, b) \o ".idx", kind |-> "idx", ik |-> "nb", blk |-> b,
      rows |-> [a \in 1..Len(m) |-> [name |-> sc.inter[m[a]].name, lo |-> Off(g, a) + 1, hi |-> Off(g, a) + sc.inter[m[a]].n]]]>>
@@ -130,6 +140,7 @@ ImcFiles(g, b, S, SS, n, sv, nv) ==
 \* .cor are not specified by the property (the code leaves them zero): entry (I,J) is compared iff blockof[I] <= blockof[J]
 BlockRawFiles(g, b, S, SS, n) ==
   <<[name |-> ImcStem(g, b) \o ".S", kind |-> "S", ik |-> "nb", blk |-> b, x |-> Concat(g, [x \in 1..NI |-> Xs(x)]),
+     xd |-> Concat(g, [x \in 1..NI |-> Xd(x)]),
      num |-> Concat(g, S), den |-> <<n>>],
     [name |-> ImcStem(g, b) \o ".cor", kind |-> "cor", ik |-> "nb", blk |-> b, num |-> SS[g], den |-> <<n>>,
      blockof |-> [I \in 1..Dim(g) |-> BlockOf(g, I)]]>>
@@ -167,7 +178,7 @@ NFramesTotal == Len(sc.frames)
 Init ==
   /\ sc \in [kind : Kinds, seed : Seeds]
   /\ dv = <<>>
-  /\ opt = [block |-> 0, first |-> 0]
+  /\ opt = [block |-> 0, first |-> 0, ext |-> "dist.new"]
   /\ pc = "load" /\ fi = 0 /\ nproc = 0 /\ nfr = 0 /\ nblk = 0
   /\ sumS = <<>> /\ avgN = <<>> /\ avgD = <<>> /\ sumSS = <<>> /\ corN = <<>> /\ corD = <<>>
   /\ sumV = 0 /\ nV = 0 /\ avgVN = 0 /\ avgVD = 1
@@ -183,9 +194,13 @@ Load ==
 \* the run options are chosen here: --block-length, --first-frame
 BeginEvaluate ==
   /\ pc = "init"
-  /\ opt' \in {o \in [block : Blocks, first : Firsts] : (IF o.first < 1 THEN 1 ELSE o.first) <= Len(sc.frames)}
+  \* --ext is a function of --first-frame here (AltExtFirsts) to keep the number of runs down; a first
+  \* frame beyond the end of the trajectory is an error ("trajectory was too short"): nothing is written
+  /\ opt' \in {o \in [block : Blocks, first : Firsts, ext : {"dist.new", "rdf"}] :
+                 /\ (o.ext = "rdf") <=> (o.first \in AltExtFirsts)
+                 /\ o.first > Len(sc.frames) => o.block = 0}
   /\ LET ff == IF opt'.first < 1 THEN 1 ELSE opt'.first IN fi' = ff /\ bstart' = ff
-  /\ pc' = "run"
+  /\ pc' = IF opt'.first > Len(sc.frames) THEN "failed" ELSE "run"
   /\ sumS' = [x \in 1..NI |-> Zeros(sc.inter[x].n)]
   /\ avgN' = [x \in 1..NI |-> Zeros(sc.inter[x].n)] /\ avgD' = [x \in 1..NI |-> 1]
   /\ sumSS' = [g \in GroupNames |-> ZeroM(Dim(g))]
@@ -243,7 +258,7 @@ EndEvaluate ==
   /\ UNCHANGED <<sc, dv, opt, fi, nproc, nfr, nblk, sumS, avgN, avgD, sumSS, corN, corD, sumV, nV, avgVN, avgVD, lastw, bstart>>
 
 Next == Load \/ BeginEvaluate \/ MergeFrame \/ WriteBlock \/ ClearAverages \/ EndEvaluate
-        \/ (pc = "done" /\ UNCHANGED vars)
+        \/ (pc \in {"done", "failed"} /\ UNCHANGED vars)
 Spec == Init /\ [][Next]_vars
 
 \* ---- properties of the design, checked by TLC on every reachable state ------------------------------
@@ -253,7 +268,20 @@ ScenarioOK ==
   /\ dv.ok
   /\ \A x \in 1..NI : sc.inter[x].n >= 2
   \* non-bonded interactions come first (csg_stat adds them first; fixes the order inside an IMC group)
-  /\ \A x \in 1..(NI - 1) : sc.inter[x].kind \in {"bond", "angle"} => sc.inter[x + 1].kind \in {"bond", "angle"}
+  /\ \A x \in 1..(NI - 1) : sc.inter[x].kind \in {"bond", "angle", "dihedral"} => sc.inter[x + 1].kind \in {"bond", "angle", "dihedral"}
+  \* angle-valued layouts are in 1/32 rad; decimal layouts have no distance on an edge and no edge at 0
+  /\ \A x \in 1..NI : sc.inter[x].kind \in {"3b", "angle", "dihedral"} => sc.inter[x].den = 4
+  /\ ~dv.dectie
+  /\ \A x \in 1..NI : sc.inter[x].den # 4 => E2(sc.inter[x], 0) # 0
+  \* family 7: a negative and a positive dihedral are counted in every frame; the wildcard pattern really
+  \* selects beads of two different types; a decimal layout and a bonded member of an IMC group are present
+  /\ sc.kind = 7 =>
+        /\ dv.dih
+        /\ \E x \in 1..NI : /\ sc.inter[x].kind = "nb" /\ Cardinality(sc.inter[x].sel[1]) >= 2
+                             /\ \A t \in sc.inter[x].sel[1] : \E b \in 1..Len(dv.top) : dv.top[b].typ = t
+        /\ \E x \in 1..NI : sc.inter[x].den = 100 /\ sc.inter[x].kind = "nb"
+        /\ \E x \in 1..NI : sc.inter[x].den = 100 /\ sc.inter[x].kind = "bond"
+        /\ \E x \in 1..NI : sc.inter[x].kind = "bond" /\ sc.inter[x].group \in GroupNames
   \* max <= half the smallest box height of every frame (BeginEvaluate's test on whichever frame is first)
   /\ \A x \in 1..NI : sc.inter[x].kind = "nb" =>
         \A f \in 1..Len(sc.frames) : HalfBoxOK(sc.inter[x], sc.frames[f].box)
@@ -297,10 +325,11 @@ CountsBounded ==
 
 \* ---- export: one record per finished run ----------------------------------------------------------
 RunRecord ==
-  [kind |-> sc.kind, seed |-> sc.seed, block |-> opt.block, first |-> opt.first, nframes |-> nproc,
+  [kind |-> sc.kind, seed |-> sc.seed, block |-> opt.block, first |-> opt.first, ext |-> opt.ext, nframes |-> nproc,
+   err |-> pc = "failed",
    doimc |-> sc.doimc, intra |-> sc.intra, tie |-> dv.tie,
    mols |-> sc.mols, bonded |-> sc.bonded, inter |-> sc.inter, frames |-> sc.frames,
    fh |-> [j \in 1..nproc |-> dv.fh[FirstFrame + j - 1]],
    files |-> files]
-EmitRun == (Emit /\ pc = "done") => PrintT(ToJson(RunRecord))
+EmitRun == (Emit /\ pc \in {"done", "failed"}) => PrintT(ToJson(RunRecord))
 =============================================================================
